@@ -328,7 +328,7 @@ theorem pkeys_strict : StrictSorted ((sortPKeys ns.pkeys).map (·.key)) := by
 
 theorem skeys_strict : StrictSorted ((sortSKeys ns.skeys).map (·.key)) := by
   rw [strictSorted_iff_nodup _ (List.pairwise_map.mpr (sortSKeys_sorted ns.skeys))]
-  exact ((sortSKeys_perm ns.skeys).map _).nodup_iff.mpr hd.2
+  exact ((sortSKeys_perm ns.skeys).map _).nodup_iff.mpr hd.2.1
 
 omit hd in
 theorem reads_pkeys : ReadsKeys (rdNameAt ns.image.toArray ns.plen (78 + (16 + ns.flen) * ns.files.length) (26 + ns.plen))
@@ -439,11 +439,12 @@ theorem findName_absent (key : Bytes) (hp : ∀ k ∈ ns.pkeys, k.key ≠ key) (
       · rw [hb2]
     · simp [hn]
 
-/-- `FindName` of an alias (that is not itself a primary key) whose target is a stored primary key returns the
-    target's record -/
-theorem findName_alias (a : SKey) (ha : a ∈ ns.skeys) (hnp : ∀ k ∈ ns.pkeys, k.key ≠ a.key)
+/-- `FindName` of an alias whose target is a stored primary key returns the target's record (the alias is not itself
+    a primary key: `Write` reports that as a duplicate) -/
+theorem findName_alias (a : SKey) (ha : a ∈ ns.skeys)
     (k : PKey) (hk : k ∈ ns.pkeys) (hak : a.pkey = k.key) (fuel : Nat) :
     ns.opened.findNameAux (fuel + 2) a.key = .ok (hitOf k) := by
+  have hnp : ∀ k ∈ ns.pkeys, k.key ≠ a.key := fun k' hk' => hd.2.2 k' hk' a ha
   rcases bsearch_primary h hd a.key with ⟨k', hk', hkey, _⟩ | ⟨_, hb⟩
   · exact absurd hkey (hnp k' hk')
   · have hrec := findName_primary h hd k hk fuel
@@ -452,7 +453,7 @@ theorem findName_alias (a : SKey) (ha : a ∈ ns.skeys) (hnp : ∀ k ∈ ns.pkey
     have hn : ns.skeys.length > 0 := List.length_pos_of_mem ha
     simp only [hn, ↓reduceIte]
     rcases bsearch_secondary h hd a.key with ⟨a', ha', hkey, pos, hb2, hrd⟩ | ⟨habs, _⟩
-    · have : a' = a := eq_of_nodup_map (·.key) ns.skeys hd.2 ha' ha hkey
+    · have : a' = a := eq_of_nodup_map (·.key) ns.skeys hd.2.1 ha' ha hkey
       subst this
       have hpk := h.pkey k hk
       have hpl : ns.plen ≠ 0 := by omega
